@@ -339,7 +339,10 @@ def gen(rng, tier):
         t2 = rtext(rng, rng.randrange(0, 6))
         b = u8(t1) + b"\0" + u8(t2)
         c = ["codes " + ilist(t1 + [0] + t2), "conv " + hexs(b), "wlen " + hexs(b), "wlen " + hexs(u8(t1 + t2)),
-             "wlen " + hexs(mutate(rng, u8(t1 + t2)))]
+             "wlen " + hexs(mutate(rng, u8(t1 + t2))), "cvalid " + hexs(u8(t1 + t2)), "cvalid " + hexs(b),
+             "cvalid " + hexs(mutate(rng, u8(t1 + t2)))]
+        lowt = [rng.randrange(1, 1500) for _ in range(rng.randrange(1, 12))]      # code points inside / around the tables
+        c.append("cvalid " + hexs(u8(lowt)))
         if i % 4 == 0:
             c.append("wlen " + hexs(bytes(rng.choice(BND) for _ in range(rng.randrange(0, 24)))))
         cases.append(c)
@@ -504,7 +507,7 @@ def distribution(cases):
         for l in c:
             t = l.split()
             ops[t[0]] = ops.get(t[0], 0) + 1
-            if t[0] in ("conv", "cmap", "str", "d32", "d16", "nocase", "safec", "wlen"):
+            if t[0] in ("conv", "cmap", "str", "d32", "d16", "nocase", "safec", "wlen", "cvalid"):
                 for h in (t[1:] if t[0] == "nocase" else t[-1:]):
                     b = unhex(h)
                     k = _classify(b)
@@ -545,7 +548,7 @@ def simplify_line(line):
         return ["str " + hexs(p + bytes([x])) for x in al]
     if t[0] == "str":
         return ["conv " + t[1], "cmap " + t[1]] + ["str " + hexs(w) for w in _windows(unhex(t[1])) if len(w) < len(unhex(t[1]))]
-    if t[0] in ("conv", "cmap", "safec", "wlen"):
+    if t[0] in ("conv", "cmap", "safec", "wlen", "cvalid"):
         b = unhex(t[1])
         return [t[0] + " " + hexs(w) for w in _windows(b) if len(w) < len(b)]
     if t[0] in ("d32", "d16"):
@@ -613,6 +616,12 @@ def reference(line):
         if op == "conv":
             s = _strict(unhex(t[1]))
             return None if s is None else _conv_expected(s)
+        if op == "cvalid":
+            b = unhex(t[1])
+            if 0 in b:
+                return None
+            s = _strict(b)
+            return None if s is None else "%d %d %d 1 1" % (len(s), len(s), len(s))
         if op == "wlen":
             s = _strict(unhex(t[1]))
             return None if s is None else "%d" % len(_u16(s))
